@@ -147,6 +147,8 @@ def main(pid, tier='quick', seed=None, replay=None):
                 for item, r in zip(terms, gres):
                     extra['goals'] = extra.get('goals', 0) + len(r)
                     extra['goals_inconclusive'] = extra.get('goals_inconclusive', 0) + sum(1 for x in r if x == 'INCONCLUSIVE')
+                    if item.get('hint_dropped'):
+                        extra['hints_dropped'] = extra.get('hints_dropped', 0) + 1
                     if item.get('pyviolation'):
                         vs.append((90, 90))
                     elif 'FAIL' in r:
